@@ -198,3 +198,37 @@ pub fn fast_verify_eval<H: HashChain>(lmots_type: u32, digest: &[u8]) -> Option<
     let cached = p.fast_verify_eval_init();
     Some(p.fast_verify_eval(digest, &cached))
 }
+
+/// Shape of the expanded view of a *fresh* aux buffer of `len` bytes for a top tree of LMS type `lms_type`:
+/// (shrunk length, level word, per cached level (level, byte length), MAC field length). Runs the real
+/// `hss_get_aux_data_len` / `hss_optimal_aux_level` / `hss_store_aux_marker` / `hss_expand_aux_data` without any tree.
+pub fn aux_fresh_shape<H: HashChain>(
+    lms_type: u32,
+    len: usize,
+) -> Option<(usize, u32, ArrayVec<[(u32, usize); 32]>, usize)> {
+    use crate::hss::aux::{
+        hss_expand_aux_data, hss_get_aux_data_len, hss_optimal_aux_level, hss_store_aux_marker,
+    };
+    extern crate std;
+    let lms = LmsAlgorithm::get_from_type::<H>(lms_type)?;
+    if len == 0 {
+        return None;
+    }
+    let mut buf = std::vec![0u8; len];
+    let aux_len = hss_get_aux_data_len(len, lms);
+    let aux = &mut buf[..aux_len];
+    let level = hss_optimal_aux_level(aux_len, lms, None);
+    hss_store_aux_marker(aux, level);
+    let mut out = ArrayVec::new();
+    match hss_expand_aux_data::<H>(Some(aux), None) {
+        None => Some((aux_len, level, out, 0)),
+        Some(e) => {
+            for (i, l) in e.data.iter().enumerate() {
+                if let Some(l) = l {
+                    out.push((i as u32, l.len()));
+                }
+            }
+            Some((aux_len, e.level, out, e.hmac.len()))
+        }
+    }
+}
